@@ -47,6 +47,11 @@ type Hooks struct {
 	// Conversions: also call Atom for type conversions T(x) (rules that care
 	// about unsafe.Pointer casts).
 	Conversions bool
+	// Case, when set, is called for every case expression of a switch with a
+	// tag: once with taken=true (the clause is entered through this value)
+	// and once with taken=false (the value did not match). Returning false
+	// drops the path.
+	Case func(tag, val ast.Expr, taken bool, s State) (State, bool)
 	// Eval is called for expressions that are evaluated but are neither a
 	// condition nor part of a call/assignment: a switch tag, a range operand.
 	Eval func(e ast.Expr, s State)
@@ -95,6 +100,7 @@ type Interp struct {
 	frames      []*frame
 	loops       []*loopCtx
 	Exits       []State // states at outermost returns
+	switchTag   ast.Expr
 	steps       int
 }
 
@@ -410,10 +416,12 @@ func (in *Interp) stmt(st ast.Stmt, s set, label string) set {
 			s = in.expr(x.Tag, s)
 			in.eval(x.Tag, s)
 		}
+		in.switchTag = x.Tag
 		return in.switchBody(x.Body, s, label, x.Tag == nil)
 	case *ast.TypeSwitchStmt:
 		s = in.stmt(x.Init, s, "")
 		s = in.stmt(x.Assign, s, "")
+		in.switchTag = nil
 		return in.switchBody(x.Body, s, label, false)
 	case *ast.SelectStmt:
 		l := &loopCtx{label: label, breaks: set{}, continues: set{}, isSwitch: true}
@@ -436,6 +444,8 @@ func (in *Interp) stmt(st ast.Stmt, s set, label string) set {
 }
 
 func (in *Interp) switchBody(body *ast.BlockStmt, s set, label string, tagless bool) set {
+	tag := in.switchTag
+	in.switchTag = nil
 	l := &loopCtx{label: label, breaks: set{}, continues: set{}, isSwitch: true}
 	in.loops = append(in.loops, l)
 	out := set{}
@@ -476,6 +486,18 @@ func (in *Interp) switchBody(body *ast.BlockStmt, s set, label string, tagless b
 				t, f := in.cond(e, rest)
 				entry.addAll(t)
 				rest = f
+			} else if in.H.Case != nil && tag != nil {
+				rest = in.expr(e, rest)
+				nf := set{}
+				for k := range rest {
+					if s2, ok := in.H.Case(tag, e, true, k.S); ok {
+						entry[ist{S: s2, D: k.D}] = struct{}{}
+					}
+					if s2, ok := in.H.Case(tag, e, false, k.S); ok {
+						nf[ist{S: s2, D: k.D}] = struct{}{}
+					}
+				}
+				rest = nf
 			} else {
 				rest = in.expr(e, rest)
 				entry.addAll(rest)
